@@ -146,6 +146,12 @@ class CodecFamily:
                 for yy in (y, Q - y):
                     lam = rng.randrange(1, Q)
                     yield dict(kind="rt1", pt=[x * lam % Q, yy * lam % Q, lam])
+            # the byte-level key decoder on one key and its flag variants in one process, genuine key first and last
+            for x in xs1[:2]:
+                y = sqrt_fq(x ** 3 + 4)
+                w = enc1((x, y))
+                yield dict(kind="pkbytes", words=[w, w - P383, w + P382, w - P383 + P382, w ^ P381, w])
+                yield dict(kind="pkbytes", words=[w - P383, w, w - P383, w + P382])
             yield dict(kind="rt1", pt=[1, 1, 0])
             yield dict(kind="rt1", pt=[rng.randrange(Q), rng.randrange(Q), 0])
         if g2 or both:
@@ -203,6 +209,20 @@ class CodecFamily:
                     return dict(why="decompress_G1 returned a different point than the word denotes", observed=A, expected=want, word=hex(w))
                 if int(PC.compress_G1(got)) != w:
                     return dict(why="accepted word does not re-compress to itself", observed=hex(int(PC.compress_G1(got))), word=hex(w))
+        elif k == "pkbytes":
+            from py_ecc.bls.g2_primitives import pubkey_to_G1
+            for w in inp["words"]:
+                want = dec1(w)
+                try:
+                    got = pubkey_to_G1(w.to_bytes(48, "big"))
+                    got = _aff(got)
+                except ValueError:
+                    got = "refuse"
+                except Exception as e:
+                    return dict(why="pubkey_to_G1 raised something other than ValueError", observed=f"{type(e).__name__}: {e}", word=hex(w))
+                if got != want:
+                    return dict(why="pubkey_to_G1 accepts/refuses or decodes differently depending on what was decoded before "
+                                    "(one key and its flag variants in one process)", observed=str(got)[:80], expected=str(want)[:80], word=hex(w))
         elif k == "rt1":
             x, y, z = inp["pt"]
             rep = tuple(__import__("py_ecc.optimized_bls12_381", fromlist=["FQ"]).FQ(v) for v in (x, y, z))
